@@ -5,6 +5,8 @@ go 1.14
 require (
 	github.com/kubewharf/kubebrain v0.0.0
 	github.com/kubewharf/kubebrain-client v0.2.1
+	github.com/pingcap/kvproto v0.0.0-20220106070556-3fa8fa04f898
+	github.com/soheilhy/cmux v0.1.5
 	github.com/tikv/client-go/v2 v2.0.1
 	github.com/tikv/pd/client v0.0.0-20220216070739-26c668271201
 	go.etcd.io/etcd/api/v3 v3.5.2
